@@ -8,6 +8,7 @@ import (
 	"os"
 	"regexp"
 	"sort"
+	"strconv"
 	"strings"
 	"time"
 	"unicode/utf8"
@@ -462,17 +463,21 @@ func quoteArgs(verb string, it mfItem) mfItem {
 
 // openerArgs: directory arguments (replacement targets without version, use directories) end in "//" or "/*"
 func openerArgs(verb string, it mfItem, opener string) mfItem {
-	// (the renderer quotes directory arguments that need it)
+	// (a placeholder here; renderVariant writes the argument in double quotes whether or not the ending needs them)
 	switch verb {
 	case "use":
-		it.P = it.P + opener
+		it.P = it.P + openerMark
 	case "replace":
 		if it.Nv == "" {
-			it.Np = it.Np + opener
+			it.Np = it.Np + openerMark
 		}
 	}
 	return it
 }
+
+const openerMark = "QQopenerQQ"
+
+var openerRE = regexp.MustCompile(`[^\s"]*` + openerMark)
 
 func renderVariant(layout []mfStmt, v wfVariant) string {
 	l2 := make([]mfStmt, len(layout))
@@ -494,6 +499,13 @@ func renderVariant(layout []mfStmt, v wfVariant) string {
 	var parts []string
 	for _, st := range l2 {
 		parts = append(parts, renderLayout([]mfStmt{st}))
+	}
+	if v.opener != "" {
+		for i, p := range parts {
+			parts[i] = openerRE.ReplaceAllStringFunc(p, func(m string) string {
+				return strconv.Quote(strings.TrimSuffix(m, openerMark) + v.opener)
+			})
+		}
 	}
 	sep := ""
 	if v.blank {
